@@ -155,6 +155,10 @@ fn string_class(s: &str) -> String {
 /// `file` part of a panic location (line numbers would make keys unstable)
 fn panic_file(p: &str) -> String {
     let mut loc = panic_loc(p);
+    // alternative repository trees (mutant calibration) live elsewhere than /repo
+    if let Some(rest) = loc.strip_prefix(&format!("{}/", dictsrc::repo_root())) {
+        loc = rest.to_string();
+    }
     // panics raised inside the standard library carry a toolchain-specific prefix
     if let Some(rest) = loc.strip_prefix("/rustc/") {
         if let Some((_, tail)) = rest.split_once('/') {
